@@ -9,6 +9,7 @@ mod gen;
 mod gen_sigma;
 mod gen_enc;
 mod gen_bind;
+mod kdf;
 mod gen_range;
 mod range;
 mod enc;
@@ -35,6 +36,7 @@ pub fn exec(op: &str, args: &[&str]) -> String {
         "tojson" => enc::op_tojson(args),
         "elg" => enc::op_elg(args),
         "ae" => enc::op_ae(args),
+        "kdf" => kdf::op_kdf(args),
         _ => "bad-op".to_string(),
     }
 }
